@@ -9,8 +9,8 @@ from gen.deccommon import run_dec
 
 
 class SPEC:
-    rule = ("engine dec; alphabet of 40 symbols = {template A, template B, bad template (unknown element in strict mode), template whose field "
-            "count exceeds the specifiers present, template cut inside an enterprise number, template cut right after its id, a well-formed template with ZERO fields (replaces the older one), two templates with the same element ids under different enterprises, data} x 2 observation domains x 2 template ids; A and B have different field lists of the "
+    rule = ("engine dec; alphabet of 50 symbols = {template A, template B, bad template (unknown element in strict mode), template whose field "
+            "count exceeds the specifiers present, template cut inside an enterprise number, template cut right after its id, a well-formed template with ZERO fields (replaces the older one), two pairs of templates with the same element ids under different enterprises (different / equal lengths), data} (+ a zero-field template record with the reserved id 2 per domain) x 2 observation domains x 2 template ids; A and B have different field lists of the "
             "same record length so decoding with the wrong one shows in the values. Quick: ALL histories of length <= 3 plus all "
             "length-4 histories ending in a data symbol, plus random histories of length 5..40; thorough: all of length <= 4, "
             "length-5 ending in data, random up to 200. After each history the stored template keys are compared. "
@@ -32,6 +32,7 @@ def symbols():
     unknown = G.IE(0, 29999, 0, 4, "")
     reg = {(ie.ent, ie.id): ie for ie in G.registry()}
     P101, Q101 = reg[(0, 101)], reg[(56506, 101)]
+    R1, S1 = reg[(0, 1)], reg[(29305, 1)]
     sym = {}
     rec = bytes([0x11, 0x22, 0x33, 0x44, 0x55, 0x66])
     for d in DOMS:
@@ -56,7 +57,13 @@ def symbols():
             # 3-byte records under P and is refused under Q)
             sym[("P", d, i)] = W.message(d, 2, W.template_body(i, [P101, u16]))
             sym[("Q", d, i)] = W.message(d, 2, W.template_body(i, [Q101, u16]))
+            # R / S: the same element id AND length under two enterprises (IANA 1 octetDeltaCount, reverse 29305:1): only the
+            # element's identity differs, which the decoded message shows as name / enterprise of its fields
+            sym[("R", d, i)] = W.message(d, 2, W.template_body(i, [R1, u32]))
+            sym[("S", d, i)] = W.message(d, 2, W.template_body(i, [S1, u32]))
             sym[("D", d, i)] = W.message(d, i, rec + rec)
+    for d in DOMS:
+        sym[("W", d, 2)] = W.message(d, 2, W.template_body(2, []))
     return sym
 
 
@@ -73,11 +80,14 @@ def nontrivial(hist):
 def gen_cases(rng, tier):
     sym = symbols()
     allkeys = sorted(sym)
-    keys = [k for k in allkeys if k[0] not in "PQ"]      # the exhaustive enumeration below (P/Q: see further down)
+    keys = [k for k in allkeys if k[0] not in "PQRSW"]      # the exhaustive enumeration below (P/Q: see further down)
     cases = []
 
     def add(hist, label):
         ops = ["dec new strict"] + ["dec pkt " + sym[s].hex() for s in hist] + ["dec keys"]
+        if label in ("same-ids-other-enterprise", "random"):
+            # ... and the content of what is stored for the keys the history touched (element identities)
+            ops += ["dec tpl %d %d" % (d, i) for (d, i) in sorted({(k[1], k[2]) for k in hist})]
         cases.append(Case(ops, label, nontrivial(hist), True))
 
     full = 3 if tier == "quick" else 4
@@ -89,10 +99,10 @@ def gen_cases(rng, tier):
         for d in datas:
             add(hist + (d,), "exh%d-data" % (full + 1))
     # same element ids under another enterprise: all histories of length <= 4 (+ a data symbol) over the symbols of ONE key
-    one = [k for k in allkeys if k[1:] == (1, 256) and k[0] in "APQXED"]
+    one = [k for k in allkeys if k[1:] == (1, 256) and k[0] in "APQRSXED"] + [("W", 1, 2)]
     for n in range(1, 5):
         for hist in itertools.product(one, repeat=n):
-            if any(k[0] in "PQ" for k in hist):
+            if any(k[0] in "PQRSW" for k in hist):
                 add(hist + (("D", 1, 256),), "same-ids-other-enterprise")
     keys = allkeys                                       # the random histories draw from the whole alphabet
     nrand = 3000 if tier == "quick" else 40000
